@@ -163,6 +163,15 @@ theorem len_remove (E : Env) (S : Router E) (L : List Route) (r : Route) (h : RR
   have : 0 < L.length := List.length_pos_of_mem hr
   omega
 
+/-- **`count -= 1` never underflows.**  The decrement is executed only when `remove` found the rule,
+and then the matcher's count is positive.  Stated here for the outermost matcher; the same fact is a
+proof obligation of every layer of the tower (`MLaws.remove_pos`, discharged for all seven), and every
+nested `remove` runs on a bucket that represents its share of the live rules, so no decrement
+anywhere in the tower underflows (the model's truncated subtraction is never truncating). -/
+theorem count_no_underflow (E : Env) (S : Router E) (L : List Route) (id : String) (h : RRepr E S L)
+    (hs : ((towerOps E).remove id S.matcher).2.isSome = true) : 0 < (towerOps E).len S.matcher :=
+  (towerLaws E).remove_pos _ _ id h.matcher hs
+
 /-! ### Non-vacuity: a concrete valid history with a removal, a batch removal and a change-set -/
 
 def exEnv : Env where
